@@ -1,9 +1,10 @@
 (* Proofs/JournalRenderVerbose.v — the order of the field lines of the verbose rendering.
-   For a field map with pairwise different keys (the HashMap of next_verbose) and a FIELD_ORDER_VERBOSE
-   without repetitions, the body is, in this order:
-     1. for each name of FIELD_ORDER_VERBOSE (other than _SOURCE_REALTIME_TIMESTAMP) that the map binds, its line;
-     2. the remaining bindings (other than _SOURCE_REALTIME_TIMESTAMP), sorted by (name, value) as byte strings;
-     3. the line of _SOURCE_REALTIME_TIMESTAMP, if bound.
+   For any collection of (name, value) pairs (the Vec of next_verbose, or the HashMap it was before) and a
+   FIELD_ORDER_VERBOSE without repetitions, the body is, in this order:
+     1. for each name of FIELD_ORDER_VERBOSE (other than _SOURCE_REALTIME_TIMESTAMP), the lines of its values, in
+        enumeration order;
+     2. the remaining pairs (other than _SOURCE_REALTIME_TIMESTAMP), sorted by (name, value) as byte strings;
+     3. the lines of _SOURCE_REALTIME_TIMESTAMP.
    Every line is FIELD_BEG name "=" value "\n" (the indentation is FIELD_BEG). *)
 From Coq Require Import String Sorted.
 From S4.Base Require Import Bytes.
@@ -15,34 +16,9 @@ Open Scope N_scope.
 Definition key_neq (k : bytes) (f : field) : bool := negb (beqb k (fst f)).
 Definition key_in (ks : list bytes) (f : field) : bool := existsb (fun k => beqb k (fst f)) ks.
 
-(* HashMap::remove on a map with unique keys: the binding, and the map without it *)
-Lemma vm_remove_spec k : forall m, NoDup (map fst m) ->
-  vm_remove k m = (assoc k m, filter (key_neq k) m).
-Proof.
-  induction m as [|[k' v'] r IH]; intro Hn; [reflexivity|].
-  cbn [vm_remove assoc filter map fst] in *. inversion Hn as [|? ? Hk Hr]; subst.
-  unfold key_neq at 1. cbn [fst]. destruct (beqb k k') eqn:E; cbn [negb].
-  - apply beqb_eq in E. subst k'. f_equal. symmetry.
-    apply filter_all. intros f Hf. unfold key_neq. apply negb_true_iff. apply beqb_neq_false.
-    intro E. apply Hk. rewrite E. apply in_map. exact Hf.
-  - rewrite (IH Hr). reflexivity.
-Qed.
-
-Lemma NoDup_filter_keys (p : field -> bool) m : NoDup (map fst m) -> NoDup (map fst (filter p m)).
-Proof.
-  induction m as [|f r IH]; intro Hn; [constructor|]. cbn [map] in Hn. inversion Hn as [|? ? Hk Hr]; subst.
-  cbn [filter]. destruct (p f); [|apply IH; exact Hr]. cbn [map]. constructor; [|apply IH; exact Hr].
-  intro Hin. apply Hk. apply in_map_iff in Hin as [g [Eg Hg]]. apply filter_In in Hg as [Hg _].
-  rewrite <- Eg. apply in_map. exact Hg.
-Qed.
-
-Lemma assoc_filter_neq q k : forall m, q <> k -> assoc q (filter (key_neq k) m) = assoc q m.
-Proof.
-  induction m as [|[k' v'] r IH]; intro H; [reflexivity|]. cbn [filter assoc]. unfold key_neq at 1. cbn [fst].
-  destruct (beqb k k') eqn:E; cbn [negb].
-  - apply beqb_eq in E. subst k'. rewrite (beqb_neq_false _ _ H). apply IH. exact H.
-  - cbn [assoc]. rewrite IH by exact H. reflexivity.
-Qed.
+(* all values bound to name k, in order *)
+Definition values_of (k : bytes) (m : list field) : list bytes :=
+  map snd (filter (fun f => beqb k (fst f)) m).
 
 Lemma filter_filter {A} (p q : A -> bool) l : filter p (filter q l) = filter (fun x => q x && p x) l.
 Proof.
@@ -55,54 +31,64 @@ Proof.
   rewrite (H x (or_introl eq_refl)), IH; [reflexivity|]. intros y Hy. apply H. right. exact Hy.
 Qed.
 
-Lemma assoc_none_keys {A} k (l : list (bytes * A)) : assoc k l = None -> forall f, In f l -> fst f <> k.
+(* removing a name (fields_take / HashMap::remove): its values, and the collection without it *)
+Lemma vm_take_spec k : forall m, vm_take k m = (values_of k m, filter (key_neq k) m).
 Proof.
-  induction l as [|[k' v'] r IH]; intros H f Hf; [destruct Hf|]. cbn [assoc] in H.
-  destruct (beqb k k') eqn:E; [discriminate|]. destruct Hf as [<-|Hf]; [|exact (IH H f Hf)].
-  cbn [fst]. intro E2. subst k'. rewrite beqb_refl in E. discriminate.
+  induction m as [|[k' v'] r IH]; [reflexivity|].
+  cbn [vm_take]. rewrite IH. unfold values_of, key_neq. cbn [filter fst].
+  destruct (beqb k k'); reflexivity.
+Qed.
+
+Lemma values_of_filter_neq q k : forall m, q <> k -> values_of q (filter (key_neq k) m) = values_of q m.
+Proof.
+  intros m H. unfold values_of. f_equal. rewrite filter_filter. apply filter_ext. intro f.
+  unfold key_neq. destruct (beqb q (fst f)) eqn:E; [|apply andb_false_r].
+  apply beqb_eq in E. rewrite <- E. rewrite (beqb_neq_false k q (not_eq_sym H)). reflexivity.
 Qed.
 
 (* the lines written for the names of the order table, and what is left *)
 Definition ordered_part (order : list bytes) (m : list field) : list field :=
-  flat_map (fun k => match assoc k m with Some v => [(k, v)] | None => [] end) order.
+  flat_map (fun k => map (pair k) (values_of k m)) order.
 Definition unordered_part (order : list bytes) (m : list field) : list field :=
   filter (fun f => negb (key_in order f)) m.
 
-Lemma take_ordered_spec cfg : forall order m, NoDup order -> NoDup (map fst m) ->
+Lemma take_ordered_spec cfg : forall order m, NoDup order ->
   take_ordered cfg order m = (concat (map (vl cfg) (ordered_part order m)), unordered_part order m).
 Proof.
-  induction order as [|k r IH]; intros m Ho Hm.
+  induction order as [|k r IH]; intros m Ho.
   - cbn [take_ordered ordered_part flat_map map concat]. f_equal. symmetry. apply filter_all. reflexivity.
-  - inversion Ho as [|? ? Hk Hr]; subst. cbn [take_ordered]. rewrite (vm_remove_spec k m Hm).
-    destruct (assoc k m) as [v|] eqn:Ea.
-    + rewrite (IH _ Hr (NoDup_filter_keys _ m Hm)). f_equal.
-      * unfold ordered_part at 2. cbn [flat_map]. rewrite Ea. cbn [app map concat]. unfold vl at 2. cbn [fst snd]. f_equal. f_equal. f_equal.
-        unfold ordered_part. apply flat_map_ext_in. intros q Hq.
-        rewrite assoc_filter_neq; [reflexivity|]. intro E. subst q. contradiction.
-      * unfold unordered_part. rewrite filter_filter. apply filter_ext. intro f.
-        unfold key_neq, key_in. cbn [existsb]. rewrite negb_orb. reflexivity.
-    + rewrite (IH _ Hr Hm). f_equal.
-      * unfold ordered_part at 2. cbn [flat_map]. rewrite Ea. reflexivity.
-      * unfold unordered_part. apply filter_ext_in. intros f Hf. unfold key_in. cbn [existsb].
-        rewrite (beqb_neq_false k (fst f)); [reflexivity|]. apply not_eq_sym. exact (assoc_none_keys k m Ea f Hf).
+  - inversion Ho as [|? ? Hk Hr]; subst. cbn [take_ordered]. rewrite (vm_take_spec k m), (IH _ Hr). f_equal.
+    + unfold ordered_part at 2. cbn [flat_map]. rewrite map_app, concat_app, vlines_vl. f_equal. f_equal. f_equal.
+      unfold ordered_part. apply flat_map_ext_in. intros q Hq.
+      rewrite values_of_filter_neq; [reflexivity|]. intro E. subst q. contradiction.
+    + unfold unordered_part. rewrite filter_filter. apply filter_ext. intro f.
+      unfold key_neq, key_in. cbn [existsb]. rewrite negb_orb. reflexivity.
 Qed.
 
 (* the body, in order *)
 Theorem verbose_body_order_l cfg m :
-  NoDup (cfg_order cfg) -> NoDup (map fst m) ->
+  NoDup (cfg_order cfg) ->
   let m1 := filter (key_neq (cfg_k_source_rt cfg)) m in
   verbose_body cfg m
   = concat (map (vl cfg) (ordered_part (cfg_order cfg) m1
                           ++ sort_fields (unordered_part (cfg_order cfg) m1)
-                          ++ match assoc (cfg_k_source_rt cfg) m with
-                             | Some s => [(cfg_k_source_rt cfg, s)]
-                             | None => []
-                             end)).
+                          ++ map (pair (cfg_k_source_rt cfg)) (values_of (cfg_k_source_rt cfg) m))).
 Proof.
-  intros Ho Hm m1. unfold verbose_body. rewrite (vm_remove_spec _ m Hm). fold m1.
-  rewrite (take_ordered_spec cfg _ m1 Ho (NoDup_filter_keys _ m Hm)).
-  rewrite !map_app, !concat_app. f_equal. f_equal.
-  destruct (assoc (cfg_k_source_rt cfg) m); [cbn [map concat]; rewrite app_nil_r|]; reflexivity.
+  intros Ho m1. unfold verbose_body. rewrite (vm_take_spec _ m). fold m1.
+  rewrite (take_ordered_spec cfg _ m1 Ho).
+  rewrite !map_app, !concat_app, vlines_vl. reflexivity.
+Qed.
+
+(* a collection with pairwise different names (the HashMap) binds at most one value to a name *)
+Lemma values_of_unique k : forall m, NoDup (map fst m) ->
+  values_of k m = match assoc k m with Some v => [v] | None => [] end.
+Proof.
+  induction m as [|[k' v'] r IH]; intro Hn; [reflexivity|]. cbn [map fst] in Hn. inversion Hn as [|? ? Hk Hr]; subst.
+  unfold values_of in *. cbn [filter fst assoc]. destruct (beqb k k') eqn:E.
+  - apply beqb_eq in E. subst k'. cbn [map snd]. f_equal.
+    rewrite (filter_none (fun f => beqb k (fst f)) r); [reflexivity|].
+    intros f Hf. apply beqb_neq_false. intro E. apply Hk. rewrite E. apply in_map. exact Hf.
+  - apply IH. exact Hr.
 Qed.
 
 (* Ord of byte strings and of (name, value) pairs is total: the second part of the body is sorted *)
@@ -154,14 +140,33 @@ Proof.
     destruct (G _ _ Hin) as [->|Hin']; [rewrite beqb_refl in E; discriminate|contradiction].
 Qed.
 
-Lemma verbose_map_keys cfg ev e : NoDup (map fst (verbose_map cfg ev e)).
+Lemma verbose_map_keys cfg ev e : cfg_verbose_multi cfg = false -> NoDup (map fst (verbose_map cfg ev e)).
 Proof.
-  unfold verbose_map, vm_of.
+  intro Hm. unfold verbose_map, vm_of. rewrite Hm. unfold vm_put.
   assert (H : forall ds m0, NoDup (map fst m0) ->
               NoDup (map fst (fold_left (fun m d => let '(k, v) := vfield cfg d in vm_insert k v m) ds m0))).
   { induction ds as [|d ds IH]; intros m0 H0; [exact H0|]. cbn [fold_left]. apply IH.
     destruct (vfield cfg d) as [k v]. apply vm_insert_keys. exact H0. }
   set (m := fold_left _ _ []).
-  assert (Hm : NoDup (map fst m)) by (apply H; constructor).
-  destruct (vm_mem (cfg_k_mono cfg) m); [exact Hm|]. destruct (mono_usec cfg ev e); [apply vm_insert_keys|]; exact Hm.
+  assert (Hmm : NoDup (map fst m)) by (apply H; constructor).
+  destruct (vm_mem (cfg_k_mono cfg) m); [exact Hmm|]. destruct (mono_usec cfg ev e); [apply vm_insert_keys|]; exact Hmm.
+Qed.
+
+(* the Vec: every enumerated data object has its line in the verbose text *)
+Theorem verbose_all_fields_l cfg ev e f :
+  cfg_verbose_multi cfg = true -> cfg_formats_ok cfg = true -> keys_wf (e_fields e) ->
+  In f (firstn (cfg_emerg_verbose cfg) (e_fields e)) ->
+  exists b, render_verbose cfg ev e = Some b /\ infix (vline cfg (fst f) (vval cfg f)) b.
+Proof.
+  intros Hm Hok Hwf Hin.
+  destruct (render_verbose_found cfg ev e (formats_ok_verbose cfg Hok)) as [ts [_ Hr]].
+  eexists. split; [exact Hr|].
+  apply infix_app_l. apply infix_cons. apply infix_app_l. apply infix_cons. apply verbose_body_line_l.
+  unfold verbose_map, vm_of. rewrite raw_data_firstn.
+  rewrite (vm_of_fields cfg _ [] (keys_wf_firstn _ _ Hwf)). rewrite Hm. unfold vm_put.
+  rewrite fold_push. cbn [app].
+  assert (Hb : In (fst f, vval cfg f) (map (fun f0 : field => (fst f0, vval cfg f0)) (firstn (cfg_emerg_verbose cfg) (e_fields e))))
+    by (apply in_map_iff; exists f; split; [reflexivity|exact Hin]).
+  match goal with |- context [vm_mem ?k ?m] => destruct (vm_mem k m) end; [exact Hb|].
+  destruct (mono_usec cfg ev e); [apply in_or_app; left; exact Hb|exact Hb].
 Qed.
